@@ -336,6 +336,8 @@ def py_str(ex, v):
         k = v.kind
         if k in (K.Str, K.Path):
             return Sym(K.Str, v.t)
+        if k == K.Cls:
+            return Sym(K.Str, ufn('pystr_class', [z3.StringSort()], z3.StringSort())(v.t))
         if k == K.Int:
             return Sym(K.Str, int_to_str(v.t))
         if k == K.Bool:
@@ -383,6 +385,8 @@ def py_str(ex, v):
         return f"<class '{ci.module.name}.{ci.name}'>"
     if isinstance(v, ExcVal):
         return Sym(K.Str, ufn('pystr_exc', [z3.StringSort()], z3.StringSort())(z3.StringVal(str(v.cls))))
+    if type(v).__name__ == 'DynType':
+        return Sym(K.Str, ufn('pystr_type_of', [K.Dyn.sort()], z3.StringSort())(v.v.t))
     raise OutOfSubset(f'str() of {v!r}')
 
 
@@ -584,10 +588,18 @@ def or_(ex, a, b):
     return Sym(K.Bool, z3.Or(lift(ex, a, K.Bool), lift(ex, b, K.Bool)))
 
 
+SENTINELS = {'inspect.Parameter.empty', 'taskchain.parameter:NO_DEFAULT', 'taskchain.parameter:NO_VALUE', 'taskchain.cache:NO_VALUE'}
+
+
+def is_sentinel(cv):
+    ci = cv.ci
+    return (ci[1] if isinstance(ci, tuple) else ci.key) in SENTINELS
+
+
 def _eq_sym_const(ex, s, c):
     k = s.kind
-    if isinstance(c, ClassVal) and c.ci == ('ext', 'inspect.Parameter.empty') and isinstance(k, K.Opt):
-        # a parameter default: None of the Opt kind stands for "no default" (inspect.Parameter.empty)
+    if isinstance(c, ClassVal) and is_sentinel(c) and isinstance(k, K.Opt):
+        # sentinels (inspect.Parameter.empty, NO_DEFAULT, NO_VALUE): the none of an Opt kind stands for them
         return Sym(K.Bool, k.is_none(s.t))
     if isinstance(c, Ref):
         cell = ex.run.cell(c)
@@ -682,6 +694,8 @@ def is_(ex, a, b):
         return a.ci == b.ci
     for x, y in ((a, b), (b, a)):
         if isinstance(x, Sym) and isinstance(y, ClassVal):
+            if isinstance(x.kind, K.Opt) and is_sentinel(y) and x.kind.inner != K.Cls:
+                return Sym(K.Bool, x.kind.is_none(x.t))
             if x.kind == K.Cls:
                 return Sym(K.Bool, x.t == z3.StringVal(cls_tag(y)))
             if isinstance(x.kind, K.Opt) and x.kind.inner == K.Cls:
